@@ -168,6 +168,37 @@ fn corpus(tier: Tier) -> Vec<(String, Vec<u8>)> {
         hist = next;
     }
     out.push(("signed seed".into(), crate::e1checks::signed_seed()));
+    // files the library did not write: the C09 seed from the independent
+    // encoder (3-byte references, pool with holes, no _Validation, code page
+    // 1252) and variants (code page id 0, over-counted pool, descending rows)
+    out.push(("independently encoded: 3-byte refs, no _Validation".into(), crate::c09::seed_bytes("enc3")));
+    {
+        use crate::enc::*;
+        use crate::spec::{ColSpec as CS, Ty as T};
+        let col = |n: &str, ty: T, key: bool| EncCol { spec: if key { CS::new(n, ty).key() } else { CS::new(n, ty).nullable() }, width1_quirk: false };
+        for (label, cp, style, order, val) in [
+            ("code page id 0, over-counted pool", 0u32, PoolStyle::OverCounted, RowOrder::Ascending, true),
+            ("descending rows, duplicate pool entries", 932, PoolStyle::Duplicates, RowOrder::Descending, true),
+            ("interleaved rows, holes, no _Validation", 65001, PoolStyle::Holes, RowOrder::Interleaved, false),
+        ] {
+            let db = EncDb {
+                ptype: 1,
+                codepage_id: cp,
+                long_refs: false,
+                pool_style: style,
+                with_validation: val,
+                row_order: order,
+                tables: vec![
+                    EncTable { name: "T1".into(), cols: vec![col("K", T::I16, true), col("S", T::Str(8), false)], rows: vec![vec![Val::Int(1), Val::s("a")], vec![Val::Int(2), Val::Null], vec![Val::Int(3), Val::s("a")]] },
+                    EncTable { name: "T2".into(), cols: vec![col("A", T::Str(4), true), EncCol { spec: CS::new("B", T::I16).nullable(), width1_quirk: true }], rows: vec![vec![Val::s("a"), Val::Int(5)], vec![Val::s("b"), Val::Null]] },
+                ],
+                streams: vec![("s1".into(), vec![1, 2, 3]), ("Big".into(), vec![7u8; 5000])],
+                summary: default_summary(),
+                extra_pool_strings: vec![],
+            };
+            out.push((format!("independently encoded: {}", label), encode(&db)));
+        }
+    }
     for pt in [1u8, 2] {
         let h = Harness::create(pt).expect("create");
         out.push((format!("fresh package type {}", pt), h.close_into_inner().unwrap()));
